@@ -4,7 +4,7 @@
 From Coq Require Import Arith.
 From AV Require Import Base.Bytes Base.Outcome Base.Utf8 Base.Radix Hash.HashModel Spec.SpecTypes Spec.SpecOps Spec.Versions
   Xml.Lexer Xml.Parser Xml.StrictValidDef Xml.StrictValidEntities Xml.RoundTripReload Xml.RoundTripSetVersion
-  Xml.RoundTripCanonFinal Xml.Reading Xml.ReadingInterp Xml.ReadingParser Xml.ReadingUnique.
+  Xml.RoundTripCanonFinal Xml.FunnelParser Xml.Reading Xml.ReadingLexer Xml.ReadingInterp Xml.ReadingParser Xml.ReadingUnique.
 Open Scope list_scope.
 Open Scope N_scope.
 
@@ -117,6 +117,53 @@ Proof.
   intros CE CA L W. destruct (load_faithful_clean T tab_el tab_at tab_en check_fn float_parse CE CA b bs t st L W) as (d & R & I).
   exists d. split; [exact R|]. split; [exact I|]. intros d' ver' t' R' I'. pose proof (reads_unique bs d' d R' R) as ->.
   destruct (InterpDoc_functional d ver' t' _ t I' I) as [-> ->]. auto.
+Qed.
+
+(* C01_faithful with the header: the standalone flag of the loaded file is the one of the declaration of the reading *)
+Theorem load_faithful_header (b : bool) bs t st :
+  names_clean tab_el = true -> names_clean tab_at = true ->
+  load b T tab_el tab_at tab_en check_fn float_parse bs = Val (Ret t st) -> p_warnings st = [] ->
+  exists d, Reads bs d /\ InterpDoc T tab_el tab_at tab_en check_fn float_parse d (p_version st) t /\
+            XmlDeclR (d_decl d) (p_standalone st).
+Proof.
+  intros CE CA L W.
+  assert (LS : load true T tab_el tab_at tab_en check_fn float_parse bs = Val (Ret t st)).
+  { destruct b; [exact L|]. destruct (load_agree T tab_el tab_at tab_en check_fn float_parse bs) as (A & _). exact (A t st L W). }
+  destruct (load_standalone T tab_el tab_at tab_en check_fn float_parse true bs t st LS) as (line & sa & l1 & NX & PS).
+  destruct (load_faithful T tab_el tab_at tab_en check_fn float_parse CE CA bs t st LS) as (d & R & I). exists d. split; [exact R|]. split; [exact I|].
+  (* the first event of the lexer is the declaration of the (unique) reading *)
+  destruct R as [EB WD]. destruct WD as (WB & MB & XD & _).
+  assert (D0 : l_deferred (lexer_new bs) = None) by reflexivity.
+  destruct (next_reads _ _ _ _ D0 NX) as (sk0 & WSK0 & MSK0 & _ & _ & ALT0).
+  destruct ALT0 as [(EQ & _)|(bytes0 & TK0 & RB0 & _)]; [discriminate EQ|].
+  assert (TH : exists body, bytes0 = [60; 63] ++ body ++ [63; 62] /\ XmlDeclR body sa) by (inversion TK0; subst; eauto).
+  destruct TH as (body & -> & XD0). rewrite PS.
+  destruct (lexer_new_bom bs) as (hb & EBS).
+  (* both decompositions of bs start with misc items followed by a declaration: the same declaration *)
+  assert (SAME : body = d_decl d).
+  { set (X := render_items (d_before d) ++ 60 :: (63 :: d_decl d ++ [63; 62] ++ render_items (d_prolog d) ++ render (d_root d) ++ render_items (d_after d))).
+    set (Y := render_items sk0 ++ 60 :: (63 :: body ++ [63; 62] ++ l_rest l1)).
+    assert (EX : bs = (if d_bom d then bom else []) ++ X) by (rewrite EB at 1; unfold render_doc, X; reflexivity).
+    assert (EY : bs = (if hb then bom else []) ++ Y) by (rewrite EBS at 1; rewrite RB0; unfold Y; cbn [app]; rewrite <- !app_assoc; reflexivity).
+    assert (E : X = Y).
+    { rewrite EX in EY. destruct (d_bom d), hb; cbn [app] in EY.
+      - unfold bom in EY. cbn [app] in EY. injection EY as EY. exact EY.
+      - exfalso. unfold bom in EY. cbn [app] in EY. symmetry in EY. unfold Y in EY.
+        destruct (misc_first_byte _ _ _ _ WSK0 MSK0 EY) as [C|C]; discriminate C.
+      - exfalso. unfold bom in EY. cbn [app] in EY. unfold X in EY.
+        destruct (misc_first_byte _ _ _ _ WB MB EY) as [C|C]; discriminate C.
+      - exact EY. }
+    unfold X, Y in E.
+    assert (E' : render_items (d_before d) ++ ([60; 63] ++ d_decl d ++ [63; 62] ++ (render_items (d_prolog d) ++ render (d_root d) ++ render_items (d_after d))) =
+                 render_items sk0 ++ ([60; 63] ++ body ++ [63; 62] ++ l_rest l1)) by (cbn [app]; exact E).
+    destruct (U1_of_U2 is_misc _ (U2_all _) (d_before d) sk0 _ _ (le_n _) WB WSK0 MB MSK0 E' (stop_decl _ _ _ XD) (stop_decl _ _ _ XD0)) as [_ E3].
+    cbn [app] in E3. injection E3 as E3.
+    assert (E3' : (d_decl d ++ [63]) ++ 62 :: (render_items (d_prolog d) ++ render (d_root d) ++ render_items (d_after d)) = (body ++ [63]) ++ 62 :: l_rest l1)
+      by (repeat (rewrite <- ?app_assoc; cbn [app]); exact E3).
+    assert (N1 : no_byte 62 (d_decl d ++ [63])) by (apply ReadingUnique.no_byte_app; split; [exact (proj1 XD)|reflexivity]).
+    assert (N2 : no_byte 62 (body ++ [63])) by (apply ReadingUnique.no_byte_app; split; [exact (proj1 XD0)|reflexivity]).
+    destruct (cut_unique 62 _ _ _ _ N1 N2 E3') as [ED _]. apply app_inj_tail in ED as [ED _]. symmetry. exact ED. }
+  rewrite <- SAME. exact XD0.
 Qed.
 
 End Functional.
